@@ -85,7 +85,7 @@ Definition xdom (b : bbox) : bty :=
   | XFC l r | XBC l r | XFX l r | XBX l r => l ++ r
   | XCurry d _ _ _ n lf =>
       if lf then py_slice d (Some n) None     (* diagram.dom[n_wires:] *)
-      else py_slice d None (Some (- n))         (* diagram.dom[:-n_wires] *)
+      else py_slice d None (Some (len d - n))   (* diagram.dom[:len(diagram.dom) - n_wires] *)
   end.
 Definition xcod (b : bbox) : bty :=
   match b with
@@ -190,7 +190,7 @@ Definition rcurry (d : diagram) (n : Z) (left : bool) : res diagram :=
   else
     let wires := py_slice (ddom d) (Some (py_or (- n) (len (ddom d)))) None in
     do caps <- dcaps wires (ty_l wires);
-    do a <- dtensor (did (py_slice (ddom d) None (Some (- n)))) caps;
+    do a <- dtensor (did (py_slice (ddom d) None (Some (len (ddom d) - n)))) caps;
     do b <- dtensor d (did (ty_l wires));
     dthen a b.
 
@@ -228,8 +228,8 @@ Fixpoint f_box (b : bbox) : res diagram :=
       (* fa(F(dom[:1]), F(dom[1:])) *)
       rfa (F_ty (py_slice (xdom b) None (Some 1))) (F_ty (py_slice (xdom b) (Some 1) None))
   | XBA _ =>
-      (* ba(F(dom[:1]), F(dom[1:])) -- sic: the same split as FA (finding F16) *)
-      rba (F_ty (py_slice (xdom b) None (Some 1))) (F_ty (py_slice (xdom b) (Some 1) None))
+      (* ba(F(dom[:-1]), F(dom[-1:])) (after the F16 repair, commit 20fba5f) *)
+      rba (F_ty (py_slice (xdom b) None (Some (-1)))) (F_ty (py_slice (xdom b) (Some (-1)) None))
   | XFC _ _ =>
       do l <- ty_left (py_slice (xdom b) None (Some 1));
       do r <- ty_right (py_slice (xdom b) (Some 1) None);
@@ -279,15 +279,16 @@ Definition build_b2r (dom cod : bty) (bs : list bbox) (offs : list Z) : res diag
   do bd <- build dom cod bs offs; b2r bd.
 
 (* ------------------------------------------------------------------ decidable side conditions *)
-(* a box built by the public constructors without error whose backward
-   applications have a single object as left argument (cf. finding F16), all the
-   way down through curried diagrams, which must themselves be well-typed *)
+(* a box built by the public constructors without error, all the way down
+   through curried diagrams, which must themselves be well-typed; right currying
+   within its documented range 0 <= n_wires <= len(diagram.dom) (outside of it
+   dom[:len(dom) - n_wires] and dom[-n_wires or len(dom):] overlap or leave a gap) *)
 Fixpoint box_good (b : bbox) : bool :=
   match b with
-  | XBA u => match u with [BUnder [_] _] => true | _ => false end
-  | XCurry dom cod boxes offs _ _ =>
+  | XCurry dom cod boxes offs n lf =>
       forallb box_good boxes &&
-      match bscan dom boxes offs with Ok t => bty_eqb t cod | Err _ => false end
+      match bscan dom boxes offs with Ok t => bty_eqb t cod | Err _ => false end &&
+      (lf || ((0 <=? n) && (n <=? len dom)))
   | _ => match bbox_check b with Ok _ => true | Err _ => false end
   end.
 
@@ -299,7 +300,7 @@ Definition diagram_good (D : bdiagram) : bool :=
   | Err _ => false
   end.
 
-(* the same without the restriction on backward applications *)
+(* the same without the range restriction on right currying *)
 Fixpoint box_built (b : bbox) : bool :=
   match b with
   | XCurry dom cod boxes offs _ _ =>
